@@ -206,7 +206,7 @@ async def ahb_state(st, idx, sd, acc):
     toks = list(st["consumed"])
     if not toks:
         return
-    s, info = AS.render(toks, rng, kinds=("key", "key", "pkg", "rep", "time"))
+    s, info = AS.render(toks, rng, kinds=("key", "key", "pkg", "rep", "badrep", "time"))
     acc.c("states_replayed")
     if len(toks) >= 3:
         acc.distinct.add(hash(("ahb",) + tuple(toks)))
